@@ -364,7 +364,9 @@ impl VariablesState {
                 _ => false,
             },
             ValueType::Float(val) => match default_val.value {
-                ValueType::Float(default_val) => *val == default_val,
+                // Bit-for-bit: `==` would call -0.0 the default 0.0 (and NaN never
+                // its own default), so the variable would come back changed.
+                ValueType::Float(default_val) => val.to_bits() == default_val.to_bits(),
                 _ => false,
             },
             ValueType::List(val) => match &default_val.value {
